@@ -12,7 +12,7 @@ for d in sorted(glob.glob('seeded/S-*')):
     funcs = sorted(set(x.strip() for x in re.findall(r'^@@ .* @@ (.*)$', patch, re.M)))
     note = m.get('note') or m.get('history') or 'caught by the quick check as first written'
     caught = 'yes' if m.get('caught_by_quick') else ('thorough tier only' if m.get('caught_by_thorough') else 'NO')
-    first = 'missed' if ('MISSED' in note or 'MASKED' in note) else 'caught'
+    first = 'missed' if ('MISSED' in note or 'MASKED' in note or m.get('first_quick_check_exit') == 0) else 'caught'
     others = ', '.join(x for x in matrix.get(sid, {}).get('caught_by', []) if x != m['property'])
     rows.append((sid, m['property'], ', '.join(files), '; '.join(f[:60] for f in funcs)[:120], first, caught, others, note))
 with open('seeded/INDEX.md', 'w') as f:
